@@ -1,6 +1,6 @@
 """C09 configuration for bin/check."""
 CFG = dict(
-    level="partial", pfile="P_C09.v", rmod="R_C09", judge="judge_C09",
+    level="proof", pfile="P_C09.v", rmod="R_C09", judge="judge_C09",
     technique="machine-checked proof (Coq) about an executable model of the crash-prone decision cores + model-tied exploration of driver.PProf",
     level_text="PARTIAL. Theorems (all inputs, no bounds): tag-range parsing never panics and treats numbers beyond int64 as 'not a range'; "
                "the binary search-path construction never slices out of bounds; config.set/configure/applyURL return an error exactly for "
